@@ -1,252 +1,350 @@
 package main
 
 import (
-	"encoding/hex"
+	"bytes"
 	"errors"
 	"fmt"
 	"io"
-	"strconv"
+	"log/slog"
+	"os"
+	"os/exec"
+	"path/filepath"
 	"strings"
+	"time"
 
+	"github.com/ovh/kmip-go/kmipserver"
 	"github.com/ovh/kmip-go/ttlv"
 
 	"verifharness/internal/report"
+	"verifharness/internal/rng"
+	sr "verifharness/internal/streamrun"
 	"verifharness/internal/tree"
 )
 
-var errTransport = errors.New("transport error")
+type readEv = sr.ReadEv
 
-type readEv struct {
-	k       int
-	withErr bool
-}
-
-// schedTransport delivers `wire` according to a schedule (same semantics as Kmip.Transport.read).
-type schedTransport struct {
-	wire     []byte
-	pos      int
-	sched    []readEv
-	maxReq   int // largest len(p) ever requested
-	requests int
-}
-
-func (t *schedTransport) Read(p []byte) (int, error) {
-	t.requests++
-	if len(p) > t.maxReq {
-		t.maxReq = len(p)
-	}
-	rem := t.wire[t.pos:]
-	if len(t.sched) == 0 {
-		if len(rem) == 0 {
-			return 0, errTransport
-		}
-		n := copy(p, rem)
-		t.pos += n
-		return n, nil
-	}
-	ev := t.sched[0]
-	t.sched = t.sched[1:]
-	if len(rem) == 0 {
-		return 0, errTransport
-	}
-	n := min(ev.k, len(p), len(rem))
-	copy(p, rem[:n])
-	t.pos += n
-	if ev.withErr {
-		return n, errTransport
-	}
-	return n, nil
-}
-func (t *schedTransport) Write(p []byte) (int, error) { return len(p), nil }
-func (t *schedTransport) Close() error                { return nil }
-
-func renderSched(s []readEv) string {
-	if len(s) == 0 {
-		return "-"
-	}
-	parts := make([]string, len(s))
-	for i, e := range s {
-		parts[i] = strconv.Itoa(e.k)
-		if e.withErr {
-			parts[i] += "e"
-		}
-	}
-	return strings.Join(parts, ",")
-}
-
-func parseSched(s string) []readEv {
-	if s == "-" || s == "" {
-		return nil
-	}
-	var out []readEv
-	for _, p := range strings.Split(s, ",") {
-		e := readEv{}
-		if strings.HasSuffix(p, "e") {
-			e.withErr = true
-			p = p[:len(p)-1]
-		}
-		e.k, _ = strconv.Atoi(p)
-		out = append(out, e)
-	}
-	return out
-}
-
+// what the generator knows about a case (nil in replay: only the input-independent oracles run).
 type streamExpect struct {
 	msgs      []*tree.Item // the complete messages at the front of the wire
 	lens      []int
-	clean     bool // schedule is progressive and error-free, so every complete message must be delivered
-	truncated bool // the wire ends inside a message
-	tooBig    bool // the message after msgs announces more than max
+	clean     bool   // every read delivers >= 1 byte and only frame-completing reads carry an error: every complete message must be delivered
+	truncated bool   // the wire ends inside a message
+	tooBig    bool   // what follows msgs is a header announcing more than max
+	announced uint64 // the announced padded size of that header (8 + padded length)
+	implOnly  bool   // zero-length reads, or errors on reads that do not complete a frame: the property does not pin whether such a call fails or carries on (io.ReadFull would carry on), only that nothing wrong is delivered or consumed — checked by the oracles, not compared with the model
+	class     string
 }
 
-// streamCase runs Recv repeatedly over the scheduled transport and renders the observable outcome.
-func streamCase(ctx *Ctx, max int, wire []byte, sched []readEv, exp *streamExpect) {
-	line := fmt.Sprintf("stream.recv %d %s %s", max, hexUp(wire), renderSched(sched))
-	ctx.current = line
-	tr := &schedTransport{wire: wire, sched: append([]readEv{}, sched...)}
-	st := ttlv.NewStream(tr, max)
-	var sb strings.Builder
+func c07(ctx *Ctx, oracle, key, detail, line string) {
+	ctx.Res.Violate(report.Violation{Property: "C07", Oracle: oracle, Key: key, Detail: detail, Line: line})
+}
+
+// bytes a rejecting Recv may allocate: its 512-byte buffer, the error value, the decode target. Far below
+// any announced size the bounded-buffering cases use (>= 64 KiB above the limit).
+const rejectAllocBudget = 16 << 10
+
+// streamCase runs Recv repeatedly over the scheduled transport, checks the property on what the real code
+// did, and registers the canonical outcome for comparison with the model.
+func streamCase(ctx *Ctx, max int, wire []byte, sched []readEv, exp *streamExpect) (line, impl string) {
+	if exp != nil && exp.tooBig && exp.announced > 1<<26 && ctx.Res.Distribution["stream.reject.allocated"] >= 3 {
+		// the code under test allocates what oversized headers announce (already reported, with inputs):
+		// do not make it allocate gigabytes a few hundred times more
+		ctx.Res.Count("stream.skipped-after-allocation-violations")
+		return "", ""
+	}
+	ctx.current = sr.Line(max, 0, wire, sched)
+	measure := exp != nil && exp.tooBig
+	var recvs []sr.Recv
+	var more bool
+	var tr *sr.Transport
+	_, p := guard("Recv", func() int {
+		recvs, more, tr = sr.Run(max, wire, sched, sr.Options{MeasureAlloc: measure})
+		return 0
+	})
+	c0 := sr.C0(recvs)
+	line = sr.Line(max, c0, wire, sched)
+	if exp != nil && exp.implOnly {
+		line = "#" + line
+	}
+	if p != "" { // cannot happen: Run recovers; kept so that a harness bug is not mistaken for a pass
+		ctx.Res.Fail("stream: harness panic: " + p)
+		return line, ""
+	}
 	got := 0
-	final := ""
-	limit := len(wire)/8 + 2
-	for i := 0; i < limit && final == ""; i++ {
-		var v ttlv.Value
-		before := tr.pos
-		err, p := guard("Recv", func() error { return st.Recv(&v) })
-		switch {
-		case p != "":
-			final = "panic"
-			ctx.Res.Violate(report.Violation{Property: "C02", Oracle: "no-panic", Key: "stream:panic " + panicKey(p), Detail: p, Line: line})
-		case err == nil:
-			fmt.Fprintf(&sb, "m@%d ", tr.pos)
+	for i := range recvs {
+		r := &recvs[i]
+		switch r.Kind {
+		case "panic":
+			c07(ctx, "no-panic", "stream:panic "+panicKey(r.Panic), "Recv panicked: "+r.Panic, line)
+		case "m":
 			if exp != nil && got < len(exp.msgs) {
-				it, cerr := fromValue(v)
+				it, cerr := fromValue(r.Value)
 				if cerr != nil || !tree.Equal(it, exp.msgs[got]) {
-					ctx.Res.Violate(report.Violation{Property: "C07", Oracle: "message-content", Key: "stream:wrong-message", Detail: fmt.Sprintf("Recv #%d returned a different message than sent", got), Line: line})
+					c07(ctx, "message-content", "stream:wrong-message", fmt.Sprintf("Recv #%d returned a different message than sent", got), line)
 				}
-				if tr.pos-before != exp.lens[got] {
-					ctx.Res.Violate(report.Violation{Property: "C07", Oracle: "exact-consumption", Key: "stream:consumed-wrong-count", Detail: fmt.Sprintf("Recv #%d consumed %d bytes for a %d byte message", got, tr.pos-before, exp.lens[got]), Line: line})
+				if r.Consumed != exp.lens[got] {
+					c07(ctx, "exact-consumption", "stream:consumed-wrong-count", fmt.Sprintf("Recv #%d consumed %d bytes for a %d byte message", got, r.Consumed, exp.lens[got]), line)
 				}
 			} else if exp != nil {
-				ctx.Res.Violate(report.Violation{Property: "C07", Oracle: "no-message-from-partial", Key: "stream:message-from-incomplete-data", Detail: "Recv returned a message although the stream holds no further complete message", Line: line})
+				what := "the stream holds no further complete message"
+				if exp.tooBig {
+					what = fmt.Sprintf("the next header announces %d bytes with max=%d", exp.announced, max)
+				}
+				c07(ctx, "no-message-from-partial", "stream:message-from-incomplete-data", "Recv returned a message although "+what, line)
 			}
 			got++
-		case errors.Is(err, errTransport):
-			final = "ioErr"
-		case err == io.EOF || err == io.ErrUnexpectedEOF:
-			final = "eof"
-		case ttlv.IsErrEncoding(err) && strings.Contains(err.Error(), "too big"):
-			final = "tooBig"
-			if tr.pos-before > 8 {
-				ctx.Res.Violate(report.Violation{Property: "C07", Oracle: "bounded-buffering", Key: "stream:too-big-buffered", Detail: fmt.Sprintf("oversized message rejected only after consuming %d bytes", tr.pos-before), Line: line})
+		case "err":
+			if exp != nil && got < len(exp.msgs) {
+				// the failing call was working on message #got: it must not have touched the following one
+				if r.Consumed > exp.lens[got] {
+					c07(ctx, "exact-consumption", "stream:error-consumed-next-message", fmt.Sprintf("failing Recv #%d consumed %d bytes, the message has %d", got, r.Consumed, exp.lens[got]), line)
+				}
 			}
-		default:
-			final = "decErr"
+			if exp != nil && exp.tooBig && got == len(exp.msgs) {
+				// "rejected without buffering the announced amount"
+				if r.Consumed > 8 {
+					c07(ctx, "bounded-buffering", "stream:too-big-buffered", fmt.Sprintf("header announcing %d bytes (max=%d) rejected only after consuming %d bytes", exp.announced, max, r.Consumed), line)
+				}
+				if exp.clean && max >= 8 && r.Consumed != 8 {
+					c07(ctx, "bounded-buffering", "stream:too-big-not-after-header", fmt.Sprintf("header announcing %d bytes (max=%d): the rejecting call consumed %d bytes, expected exactly the header", exp.announced, max, r.Consumed), line)
+				}
+				if r.RealCap != r.C0 {
+					c07(ctx, "bounded-buffering", "stream:too-big-buffer-grown", fmt.Sprintf("header announcing %d bytes (max=%d): receive buffer grown from %d to %d bytes before the rejection", exp.announced, max, r.C0, r.RealCap), line)
+				}
+				if measure && r.Alloc > rejectAllocBudget && exp.announced > 4*rejectAllocBudget {
+					c07(ctx, "bounded-buffering", "stream:too-big-allocated", fmt.Sprintf("header announcing %d bytes (max=%d): the rejecting Recv allocated %d bytes", exp.announced, max, r.Alloc), line)
+					ctx.Res.Count("stream.reject.allocated")
+				}
+				ctx.Res.Count("stream.reject.measured")
+			}
+		}
+		// the model's `cap` is the capacity REQUESTED; the real one may be rounded up by Grow, never by much
+		if r.Reads > 0 && (r.RealCap < r.ReqCap || r.MaxCap > 2*r.ReqCap+8192) {
+			c07(ctx, "bounded-buffering", "stream:capacity-not-proportional", fmt.Sprintf("receive buffer capacity %d (largest %d) for a requested size of %d", r.RealCap, r.MaxCap, r.ReqCap), line)
+		}
+		if max > 0 && r.MaxCap > 2*maxInt(r.C0, max)+8192 {
+			c07(ctx, "bounded-buffering", "stream:capacity-exceeds-max", fmt.Sprintf("receive buffer capacity %d with max=%d", r.MaxCap, max), line)
 		}
 	}
-	if final == "" {
-		final = "more"
+	if max > 0 && tr.MaxReq > max && tr.MaxReq > 8 {
+		c07(ctx, "bounded-buffering", "stream:read-request-exceeds-max", fmt.Sprintf("a Read of %d bytes was requested with max=%d", tr.MaxReq, max), line)
 	}
-	if max > 0 && tr.maxReq > max && tr.maxReq > 8 {
-		ctx.Res.Violate(report.Violation{Property: "C07", Oracle: "bounded-buffering", Key: "stream:read-request-exceeds-max", Detail: fmt.Sprintf("a Read of %d bytes was requested with max=%d", tr.maxReq, max), Line: line})
+	final := "more"
+	if !more && len(recvs) > 0 {
+		final = recvs[len(recvs)-1].Kind
 	}
 	if exp != nil && exp.clean && got < len(exp.msgs) {
-		ctx.Res.Violate(report.Violation{Property: "C07", Oracle: "all-delivered", Key: "stream:message-lost", Detail: fmt.Sprintf("only %d of %d complete messages were delivered (%s)", got, len(exp.msgs), final), Line: line})
+		c07(ctx, "all-delivered", "stream:message-lost", fmt.Sprintf("only %d of %d complete messages were delivered (%s)", got, len(exp.msgs), final), line)
 	}
-	impl := fmt.Sprintf("ok %s%s pos=%d", sb.String(), final, tr.pos)
+	impl = sr.Render(recvs, more, tr.Pos)
 	ctx.Add(line, impl, len(wire) > 8, "C07")
 	ctx.Res.Count("stream.final=" + final)
 	ctx.Res.Count(fmt.Sprintf("stream.msgs=%d", min(got, 5)))
+	if exp != nil && exp.class != "" {
+		ctx.Res.Count("stream.class=" + exp.class)
+	}
+	for i := range recvs {
+		if recvs[i].RealCap != recvs[i].C0 {
+			ctx.Res.Count("stream.buffer-grown")
+			break
+		}
+	}
+	return line, impl
+}
+
+func maxInt(a, b int) int {
+	if a > b {
+		return a
+	}
+	return b
 }
 
 func init() {
 	register(&Engine{
 		Name: "stream",
-		Rule: "sequences of 1..4 generic TTLV messages concatenated on a scripted transport x read schedules (1-byte reads, random chunk sizes, boundary-spanning chunks, data returned together with an error, zero-length reads, error-free exhausted schedule) x truncation at random offsets x announced lengths around the max; distinct = distinct line; nontrivial = wire longer than one header",
+		Rule: "sequences of 1..4 generic TTLV messages (written by Stream.Send or by the independent encoder) on a scripted transport x read schedules (1-byte reads, random chunk sizes, boundary-spanning chunks, data returned together with an error on the frame-completing read of any message, zero-length reads and errors at random points [impl-only: safety oracles], error-free exhausted schedule) x truncation at random offsets x max in {<0, 0, server limit (probed on a real kmipserver), largest message, small} x announced lengths around the max and up to 2^32-1 (allocation measured) x the same lines on a GOARCH=386 build; distinct = distinct line; nontrivial = wire longer than one header",
 		Run:  runStream,
 	})
 }
 
-func runStream(ctx *Ctx) {
-	if len(ctx.Replay) > 0 {
-		for _, l := range ctx.Replay {
-			f := strings.Fields(l)
-			if len(f) != 4 || f[0] != "stream.recv" {
-				continue
-			}
-			max, _ := strconv.Atoi(f[1])
-			if f[2] == "-" {
-				f[2] = ""
-			}
-			wire, err := hex.DecodeString(f[2])
-			if err != nil {
-				continue
-			}
-			streamCase(ctx, max, wire, parseSched(f[3]), nil)
+func hdrAnnouncing(l uint32) []byte {
+	return []byte{0x42, 0x00, 0x01, 0x08, byte(l >> 24), byte(l >> 16), byte(l >> 8), byte(l)}
+}
+
+func paddedNeed(l uint32) uint64 { return 8 + (uint64(l)+7)/8*8 }
+
+// sendWire writes the messages through Stream.Send ("messages written to a TTLV stream") and checks that
+// each Send issued exactly the bytes of the message.
+func sendWire(ctx *Ctx, msgs []*tree.Item) []byte {
+	tr := &sr.Transport{}
+	st := ttlv.NewStream(tr, 0)
+	var wire []byte
+	for i, m := range msgs {
+		v := toValue(m)
+		before := len(tr.Written)
+		err, p := guard("Send", func() error { return st.Send(&v) })
+		var out []byte
+		for _, w := range tr.Written[before:] {
+			out = append(out, w...)
 		}
+		if p != "" || err != nil || !bytes.Equal(out, m.Encode()) {
+			c07(ctx, "send-bytes", "stream:send-wrong-bytes", fmt.Sprintf("Send #%d: panic=%q err=%v wrote %d bytes, the message encodes to %d", i, p, err, len(out), len(m.Encode())), "# stream.send "+hexUp(m.Encode()))
+			out = m.Encode()
+		}
+		wire = append(wire, out...)
+	}
+	ctx.Res.Count("stream.wire-by-Send")
+	return wire
+}
+
+func runStream(ctx *Ctx) {
+	slog.SetDefault(slog.New(slog.NewTextHandler(io.Discard, nil)))
+	if len(ctx.Replay) > 0 {
+		var lines, impls []string
+		for _, l := range ctx.Replay {
+			if max, _, wire, sched, ok := sr.ParseLine(l); ok {
+				line, impl := streamCase(ctx, max, wire, sched, nil)
+				lines, impls = append(lines, strings.TrimPrefix(line, "#")), append(impls, impl)
+			}
+		}
+		arch32(ctx, lines, impls)
 		return
 	}
 	r := ctx.R
 	opts := tree.GenOpts{MaxDepth: 3, MaxChildren: 4, MaxData: 30, MaxBigBits: 128}
+
+	// the limit the server configures (kmipserver/conn.go), observed on a real server
+	srvMax := probeServerLimit(ctx)
+
+	var lines32 []string
+	var impl32 []string
+	run := func(max int, wire []byte, sched []readEv, exp *streamExpect) {
+		line, impl := streamCase(ctx, max, wire, sched, exp)
+		if len(wire) <= 1<<16 && impl != "" {
+			lines32 = append(lines32, strings.TrimPrefix(line, "#"))
+			impl32 = append(impl32, impl)
+		}
+	}
+
 	n := ctx.N(1200, 40000)
 	for i := 0; i < n; i++ {
 		nm := 1 + r.Intn(4)
 		exp := &streamExpect{clean: true}
-		var wire []byte
 		for j := 0; j < nm; j++ {
 			t := tree.Gen(r, opts, 0)
-			if i%40 == 7 && j == 0 { // a message bigger than the initial 512-byte buffer
-				t = &tree.Item{Kind: tree.KBytes, Tag: 0x420001, Data: r.Bytes(500 + r.Intn(600))}
+			if i%20 == 7 && j == i/20%nm { // a message bigger than the initial buffer, at any position
+				t = &tree.Item{Kind: tree.KBytes, Tag: 0x420001, Data: r.Bytes(500 + r.Intn(3000))}
 			}
-			e := t.Encode()
 			exp.msgs = append(exp.msgs, t)
-			exp.lens = append(exp.lens, len(e))
-			wire = append(wire, e...)
+			exp.lens = append(exp.lens, len(t.Encode()))
+		}
+		var wire []byte
+		if r.Chance(1, 4) {
+			wire = sendWire(ctx, exp.msgs)
+		} else {
+			for _, m := range exp.msgs {
+				wire = append(wire, m.Encode()...)
+			}
+		}
+		largest := 0
+		for _, l := range exp.lens {
+			largest = maxInt(largest, l)
 		}
 		max := 0
-		switch r.Intn(4) {
+		switch r.Intn(6) {
 		case 0:
-			max = 1 << 20
+			max = srvMax
 		case 1: // exactly the largest message
-			for _, l := range exp.lens {
-				if l > max {
-					max = l
-				}
-			}
+			max = largest
+		case 2: // what the client passes: no limit
+			max = -1
+		case 3:
+			max = -1 - r.Intn(1<<20)
 		}
 		// schedule
 		var sched []readEv
-		switch r.Intn(6) {
+		switch k := r.Intn(8); k {
 		case 0: // exhausted schedule: every read returns all that is requested
+			exp.class = "sched-none"
 		case 1: // 1-byte reads
+			exp.class = "sched-1byte"
 			for k := 0; k < len(wire); k++ {
-				sched = append(sched, readEv{k: 1})
+				sched = append(sched, readEv{K: 1})
 			}
 		case 2, 3: // random chunks
+			exp.class = "sched-chunks"
 			for k := 0; k < len(wire); k++ {
-				sched = append(sched, readEv{k: 1 + r.Intn(24)})
+				sched = append(sched, readEv{K: 1 + r.Intn(24)})
 			}
 		case 4: // last bytes of the wire delivered together with an error (io.EOF-like)
-			sched = append(sched, readEv{k: 8})
-			total := 0
-			for _, l := range exp.lens {
-				total += l
-			}
-			for k := 0; k < 2*nm-2; k++ {
-				sched = append(sched, readEv{k: 1 << 20})
-			}
-			sched = append(sched, readEv{k: 1 << 20, withErr: true})
-		case 5: // errors / zero reads at random points
-			exp.clean = false
-			for k := 0; k < len(wire)/4+2; k++ {
-				e := readEv{k: 1 + r.Intn(16)}
-				if r.Chance(1, 12) {
-					e.withErr = true
+			exp.class = "sched-eof-last"
+			for j, l := range exp.lens { // header, then the whole body; the very last read carries the error
+				last := j == nm-1
+				if l == 8 {
+					sched = append(sched, readEv{K: 8, WithErr: last})
+					continue
 				}
-				if r.Chance(1, 15) {
-					e.k = 0
+				sched = append(sched, readEv{K: 8}, readEv{K: 1 << 20, WithErr: last})
+			}
+		case 5: // the read that completes message j (any j, possibly several) carries an error
+			exp.class = "sched-err-on-completion"
+			flagged := map[int]bool{r.Intn(nm): true}
+			if r.Bool() {
+				flagged[r.Intn(nm)] = true
+			}
+			for j, l := range exp.lens {
+				// header in 1..3 reads, body in 0..3 reads; the last read of the frame is flagged
+				var ks []int
+				left := 8
+				for left > 0 {
+					k := 1 + r.Intn(left)
+					ks = append(ks, k)
+					left -= k
+				}
+				left = l - 8
+				for left > 0 {
+					k := 1 + r.Intn(left)
+					if r.Bool() {
+						k = left
+					}
+					ks = append(ks, k)
+					left -= k
+				}
+				for x, k := range ks {
+					last := x == len(ks)-1
+					if last && r.Bool() {
+						k += r.Intn(1 << 16) // asks for more than the frame needs: capped by the request
+					}
+					sched = append(sched, readEv{K: k, WithErr: last && flagged[j]})
+				}
+			}
+		case 6: // errors at random points
+			exp.class = "sched-random-errors"
+			exp.clean = false
+			exp.implOnly = true
+			for k := 0; k < len(wire)/4+2; k++ {
+				e := readEv{K: 1 + r.Intn(16)}
+				if r.Chance(1, 12) {
+					e.WithErr = true
 				}
 				sched = append(sched, e)
+			}
+		case 7: // zero-length reads (with and without error) at random points
+			exp.class = "sched-zero-reads"
+			exp.clean = false
+			exp.implOnly = true
+			z := 0
+			for k := 0; k < len(wire)/4+2; k++ {
+				e := readEv{K: 1 + r.Intn(16)}
+				if r.Chance(1, 8) {
+					e.K = 0
+					e.WithErr = r.Chance(1, 3)
+					z++
+				}
+				sched = append(sched, e)
+			}
+			if z == 0 {
+				sched[r.Intn(len(sched))].K = 0
 			}
 		}
 		// variations of the wire
@@ -257,43 +355,277 @@ func runStream(ctx *Ctx) {
 			wire = wire[:cut]
 			exp.msgs, exp.lens = exp.msgs[:nm-1], exp.lens[:nm-1]
 			exp.truncated = true
-		case 1: // followed by an oversized announcement
+		case 1: // followed by an oversized announcement, close to the limit or far above it
 			if max > 0 {
-				big := []byte{0x42, 0x00, 0x01, 0x08, 0, 0, 0, 0}
-				l := max - 8 + 1 + r.Intn(16)
-				big[4], big[5], big[6], big[7] = byte(l>>24), byte(l>>16), byte(l>>8), byte(l)
-				wire = append(wire, big...)
-				wire = append(wire, r.Bytes(64)...)
-				exp.tooBig = true
+				var l uint32
+				switch r.Intn(3) {
+				case 0:
+					l = uint32(max - 8 + 1 + r.Intn(16))
+				case 1:
+					l = uint32(max) + uint32(r.Intn(1<<26))
+				default:
+					l = rng.Pick(r, hugeLens)
+				}
+				if paddedNeed(l) > uint64(max) {
+					wire = append(wire, hdrAnnouncing(l)...)
+					wire = append(wire, r.Bytes(64)...)
+					exp.tooBig, exp.announced = true, paddedNeed(l)
+				}
 			}
 		}
-		streamCase(ctx, max, wire, sched, exp)
+		run(max, wire, sched, exp)
 	}
-	// large messages: buffer growth far beyond the initial 512 bytes, up to the server's 1 MiB limit
+
+	// announcements far above the limit: 2^31 and 2^32 boundaries, after 0..2 valid messages, every
+	// schedule class; the rejecting call must consume 8 bytes, keep its buffer and allocate next to nothing.
+	limits := []int{srvMax, 1 << 20, 65536, 512, 24, 8} // a limit below the header size rejects everything; when exactly is not pinned
+	for _, max := range limits {
+		for _, l := range hugeLens {
+			if paddedNeed(l) <= uint64(max) {
+				continue
+			}
+			for variant := 0; variant < ctx.N(3, 8); variant++ {
+				exp := &streamExpect{clean: true, tooBig: true, announced: paddedNeed(l), class: "huge-announcement"}
+				var wire []byte
+				for j := 0; j < variant%3; j++ {
+					t := tree.Gen(r, opts, 0)
+					if len(t.Encode()) > max {
+						break
+					}
+					exp.msgs = append(exp.msgs, t)
+					exp.lens = append(exp.lens, len(t.Encode()))
+					wire = append(wire, t.Encode()...)
+				}
+				wire = append(wire, hdrAnnouncing(l)...)
+				wire = append(wire, r.Bytes(8*r.Intn(9))...)
+				var sched []readEv
+				switch variant % 4 {
+				case 1:
+					for k := 0; k < len(wire); k++ {
+						sched = append(sched, readEv{K: 1})
+					}
+				case 2:
+					for k := 0; k < len(wire); k++ {
+						sched = append(sched, readEv{K: 1 + r.Intn(12)})
+					}
+				case 3:
+					sched = []readEv{{K: 4}, {K: 1 << 30}, {K: 1 << 30}, {K: 1 << 30}}
+				}
+				run(max, wire, sched, exp)
+			}
+		}
+	}
+	// without a limit a large announcement is followed: the buffer grows for it (that is what "no limit"
+	// means) and the truncated stream ends in an error
+	for _, max := range []int{0, -1} {
+		for _, l := range []uint32{4096, 1 << 16, 1<<20 + 8, 1 << 22} {
+			exp := &streamExpect{clean: true, truncated: true, class: "nolimit-large-truncated"}
+			wire := append(hdrAnnouncing(l), r.Bytes(64)...)
+			run(max, wire, nil, exp)
+		}
+	}
+
+	// large messages: buffer growth far beyond the initial capacity, up to the server's limit
 	sizes := []int{513, 4096, 65536, 73720, 73729, 100000, 300000}
 	if ctx.Thor {
-		sizes = append(sizes, 600000, 1048560)
+		sizes = append(sizes, 600000, srvMax-8, srvMax)
 	}
 	for _, sz := range sizes {
-		big := &tree.Item{Kind: tree.KBytes, Tag: 0x420001, Data: r.Bytes(sz)}
+		big := &tree.Item{Kind: tree.KBytes, Tag: 0x420001, Data: r.Bytes(sz - 8)} // encodes to sz bytes when sz%8 == 0
 		small := tree.Gen(r, opts, 0)
+		bl, sl := len(big.Encode()), len(small.Encode())
 		wire := append(big.Encode(), small.Encode()...)
-		exp := &streamExpect{clean: true, msgs: []*tree.Item{big, small}, lens: []int{len(big.Encode()), len(small.Encode())}}
-		for _, max := range []int{0, 1 << 20} {
-			streamCase(ctx, max, wire, nil, exp)
-			streamCase(ctx, max, wire, []readEv{{k: 8}, {k: 1000}, {k: 65536}, {k: 7}, {k: 1 << 20}, {k: 1 << 20}, {k: 1 << 20}, {k: 1 << 20}, {k: 1 << 20}}, exp)
+		for _, max := range []int{0, -1, srvMax, bl} {
+			if max > 0 && (bl > max || sl > max) {
+				continue
+			}
+			if !ctx.Thor && sz > 1<<16 && (max == -1 || max == bl) { // keep the quick tier's volume down
+				continue
+			}
+			exp := func(class string) *streamExpect {
+				return &streamExpect{clean: true, msgs: []*tree.Item{big, small}, lens: []int{bl, sl}, class: class}
+			}
+			run(max, wire, nil, exp("large"))
+			run(max, wire, []readEv{{K: 8}, {K: 1000}, {K: 65536}, {K: 7}, {K: 1 << 20}, {K: 1 << 20}, {K: 1 << 20}, {K: 1 << 20}, {K: 1 << 20}}, exp("large"))
+			// the read completing the large (grown-buffer) message carries an error; so does the one completing the small one
+			run(max, wire, []readEv{{K: 8}, {K: bl / 2}, {K: 1 << 30, WithErr: true}, {K: 8}, {K: 1 << 30, WithErr: true}}, exp("large-err-on-completion"))
+			run(max, wire, []readEv{{K: 3}, {K: 5}, {K: 1 << 30, WithErr: true}, {K: 1 << 30, WithErr: sl == 8}, {K: 1 << 30, WithErr: true}}, exp("large-err-on-completion"))
 		}
 	}
 	// announced lengths around the limit, exhaustively near the boundary
-	for _, max := range []int{16, 24, 512, 520, 1024} {
+	for _, max := range []int{16, 24, 512, 520, 1024, srvMax} {
 		for l := max - 24; l <= max+8; l++ {
-			if l < 0 {
+			if l < 0 || (max > 1<<16 && !ctx.Thor && l < max-9 && l != max-16) {
 				continue
 			}
-			hdr := []byte{0x42, 0x00, 0x01, 0x08, byte(l >> 24), byte(l >> 16), byte(l >> 8), byte(l)}
-			wire := append(hdr, make([]byte, (l+7)/8*8)...)
+			body := (l + 7) / 8 * 8
+			exp := &streamExpect{class: "boundary"}
+			var wire []byte
+			if 8+body > max {
+				exp.tooBig, exp.clean, exp.announced = true, true, uint64(8+body)
+				wire = append(hdrAnnouncing(uint32(l)), make([]byte, min(body, 4096))...)
+			} else {
+				wire = append(hdrAnnouncing(uint32(l)), make([]byte, body)...)
+			}
 			wire = append(wire, tree.Gen(r, opts, 0).Encode()...)
-			streamCase(ctx, max, wire, nil, nil)
+			if !exp.tooBig {
+				exp = nil // an all-zero byte string body: accepted, decoded by the generic decoder; the model says what follows
+			}
+			run(max, wire, nil, exp)
 		}
+	}
+	// class floors: a generator change that silently stops producing a class is a harness error
+	for _, c := range []string{"stream.class=huge-announcement", "stream.class=sched-err-on-completion", "stream.class=sched-zero-reads", "stream.class=large-err-on-completion", "stream.reject.measured", "stream.wire-by-Send", "stream.buffer-grown"} {
+		if ctx.Res.Distribution[c] < 10 {
+			ctx.Res.Fail(fmt.Sprintf("stream: input class %s has only %d cases", c, ctx.Res.Distribution[c]))
+		}
+	}
+
+	arch32(ctx, lines32, impl32)
+}
+
+// announced lengths at the edges of 31/32-bit arithmetic (padded sizes 2^31-8 … 2^32).
+var hugeLens = []uint32{
+	1 << 24, 1 << 26, 0x7FFFFFE8, 0x7FFFFFF0, 0x7FFFFFF1, 0x7FFFFFF7, 0x7FFFFFF8, 0x7FFFFFF9, 0x7FFFFFFF,
+	0x80000000, 0x80000001, 0x80000008, 0xC0000000, 0xFFFFFFF0, 0xFFFFFFF1, 0xFFFFFFF7, 0xFFFFFFF8, 0xFFFFFFF9, 0xFFFFFFFE, 0xFFFFFFFF,
+}
+
+// ---- the server's limit -----------------------------------------------------------------------------------
+
+// probeServerLimit finds, on a real kmipserver over an in-memory connection (nothing is buffered: a Write
+// returns how many bytes the peer consumed), the largest announced message size the server accepts
+// (kmipserver/conn.go passes it to ttlv.NewStream). A header announcing `need` bytes is written followed by at
+// most 4 KiB of the body: a server that accepts the header consumes all of it (and waits for the rest); a server
+// that rejects it answers with an error response and closes, having consumed the header and at most one more
+// 8-byte "frame" of the filler. No large body is ever sent, so probing costs the same whatever the limit is.
+func probeServerLimit(ctx *Ctx) int {
+	const fallback = 1 << 20
+	const ceiling = 64 << 20
+	l := newMemListener()
+	srv := kmipserver.NewServer(l, kmipserver.NewBatchExecutor())
+	go func() { _ = srv.Serve() }()
+	defer func() {
+		done := make(chan struct{})
+		go func() { _ = srv.Shutdown(); close(done) }()
+		select {
+		case <-done:
+		case <-time.After(10 * time.Second):
+			ctx.Res.Fail("stream: probe server did not shut down")
+		}
+	}()
+	id := 0
+	accepts := func(need int) (bool, error) {
+		id++
+		c, err := l.dial(id, 5*time.Second)
+		if err != nil {
+			return false, err
+		}
+		defer c.Close()
+		payload := append(hdrAnnouncing(uint32(need-8)), make([]byte, min(need-8, 4096))...)
+		go func() { _, _ = io.Copy(io.Discard, c) }() // let the server write its answer
+		wrote := make(chan int, 1)
+		go func() { n, _ := c.Write(payload); wrote <- n }()
+		select {
+		case n := <-wrote:
+			if n == len(payload) {
+				return true, nil
+			}
+			if n > 16 {
+				return false, fmt.Errorf("a server announcing %d bytes consumed %d of %d bytes and closed", need, n, len(payload))
+			}
+			return false, nil
+		case <-time.After(20 * time.Second):
+			return false, errors.New("the server neither consumed the data nor closed the connection")
+		}
+	}
+	fail := func(err error) int {
+		ctx.Res.Fail("stream: probing the server limit: " + err.Error())
+		return fallback
+	}
+	if ok, err := accepts(ceiling + 8); err != nil {
+		return fail(err)
+	} else if ok {
+		c07(ctx, "server-limit", "stream:server-without-limit", fmt.Sprintf("a kmipserver connection accepts a header announcing a %d byte message and starts buffering it: no effective size limit is configured (kmipserver/conn.go)", ceiling+8), "# stream.server-limit")
+		return fallback
+	}
+	if ok, err := accepts(32); err != nil {
+		return fail(err)
+	} else if !ok {
+		c07(ctx, "server-limit", "stream:server-rejects-everything", "a kmipserver connection rejects a header announcing a 32 byte message", "# stream.server-limit")
+		return fallback
+	}
+	lo, hi := 32, ceiling+8 // lo accepted, hi rejected, both multiples of 8
+	for hi-lo > 8 {
+		mid := (lo + (hi-lo)/2) / 8 * 8
+		ok, err := accepts(mid)
+		if err != nil {
+			return fail(err)
+		}
+		if ok {
+			lo = mid
+		} else {
+			hi = mid
+		}
+	}
+	ctx.Res.Count(fmt.Sprintf("stream.server-limit=%d", lo))
+	return lo
+}
+
+// ---- 32-bit build ---------------------------------------------------------------------------------------------
+
+// arch32 evaluates the same lines on the library built for GOARCH=386 (int is 32 bits wide: the announced
+// length is an unsigned 32-bit value) and requires the same answers. Skipped, and counted as such, where a
+// 386 binary cannot be built or executed.
+func arch32(ctx *Ctx, lines, impls []string) {
+	if os.Getenv("VERIF_STREAM_NO32") != "" || len(lines) == 0 {
+		ctx.Res.Count("stream.arch32=disabled")
+		return
+	}
+	bin := filepath.Join(os.TempDir(), fmt.Sprintf("stream32-%d", os.Getpid()))
+	defer os.Remove(bin)
+	build := exec.Command("go", "build", "-tags", "verif", "-o", bin, "./cmd/stream32")
+	build.Env = append(os.Environ(), "GOARCH=386", "GOOS=linux", "CGO_ENABLED=0")
+	if _, err := os.Stat("cmd/stream32"); err != nil {
+		if exe, e2 := os.Executable(); e2 == nil { // .work/bin*/harness -> <verif>/go
+			build.Dir = filepath.Join(filepath.Dir(exe), "..", "..", "go")
+		}
+	}
+	if out, err := build.CombinedOutput(); err != nil {
+		ctx.Res.Count("stream.arch32=unavailable(build)")
+		fmt.Fprintf(os.Stderr, "stream: GOARCH=386 build unavailable: %v: %s\n", err, truncate(string(out), 400))
+		return
+	}
+	cmd := exec.Command(bin)
+	cmd.Stdin = strings.NewReader(strings.Join(lines, "\n") + "\n")
+	var stderr bytes.Buffer
+	cmd.Stderr = &stderr
+	out, err := cmd.Output()
+	answers := strings.Split(strings.TrimRight(string(out), "\n"), "\n")
+	if err != nil && len(out) == 0 {
+		var ee *exec.ExitError
+		if !errors.As(err, &ee) { // could not be started: no 32-bit execution support on this machine
+			ctx.Res.Count("stream.arch32=unavailable(exec)")
+			fmt.Fprintf(os.Stderr, "stream: GOARCH=386 binary cannot be executed: %v\n", err)
+			return
+		}
+	}
+	for i, line := range lines {
+		if i >= len(answers) || answers[i] == "" {
+			c07(ctx, "arch32", "stream:32bit-crash", "the GOARCH=386 build did not answer (crashed): "+truncate(stderr.String(), 300), line)
+			break
+		}
+		a := answers[i]
+		if k := strings.LastIndex(a, " c0="); k >= 0 {
+			a = a[:k]
+		}
+		ctx.Res.Count("stream.arch32.cases")
+		if a == impls[i] {
+			continue
+		}
+		key := "stream:32bit-differs"
+		if strings.Contains(a, "panic@") {
+			key = "stream:32bit-panic"
+		}
+		c07(ctx, "arch32", key, fmt.Sprintf("on a GOARCH=386 build the same input gives %q, on this build %q", a, impls[i]), line)
 	}
 }
